@@ -40,6 +40,10 @@ func runC20(tier string, seed int64, si, sn int, rep *monitor.Report, note func(
 			rep.Violate(P, "base-history-error", "%s: %v", base.ID(), err)
 			continue
 		}
+		for c, what := range scratch.Unmodelled {
+			rep.SetCase(c)
+			rep.NoteUnmodelled(what)
+		}
 		for _, v := range scratch.Violations {
 			// a violation in the fault-free base history belongs to whichever property it names
 			rep.Violations = append(rep.Violations, v)
